@@ -413,6 +413,14 @@ def _abs(ex, st, args, kwargs):
         yield st, SV(v.sort, z3.If(v.t < 0, -v.t, v.t))
 
 
+def _chr(ex, st, args, kwargs):
+    (v,) = args
+    if not is_sym(v):
+        yield st, chr(v)
+    else:
+        yield st, SV("str", z3.StrFromCode(lift(v, "int")), char=True)
+
+
 def _ord(ex, st, args, kwargs):
     (v,) = args
     if isinstance(v, str):
@@ -420,6 +428,9 @@ def _ord(ex, st, args, kwargs):
             yield ex.raise_(st, "TypeError")
         else:
             yield st, ord(v)
+        return
+    if v.char:
+        yield st, SV("int", z3.StrToCode(v.t))
         return
     for st1, ok in ex.branch(st, _wrap_bool(z3.Length(v.t) == 1)):
         if ok:
@@ -543,6 +554,13 @@ def _map(ex, st, args, kwargs):
 def _filter(ex, st, args, kwargs):
     fn, it = args
     items = bm.iter_values(ex, st, it)
+    if items is None and isinstance(it, SV) and it.sort == "str":
+        # character filter of a symbolic string: an uninterpreted subsequence of it
+        from .contracts import pure_result
+
+        seq = pure_result(ex, st, "py_filter_chars_" + (fn.name if isinstance(fn, BuiltinRef) else "fn"), "seq[str]", [it])
+        yield st, seq
+        return
     if items is None:
         raise U("filter over symbolic iterable")
 
@@ -632,6 +650,13 @@ def _repr(ex, st, args, kwargs):
 
 
 def _sum(ex, st, args, kwargs):
+    if isinstance(args[0], GenThunk):
+        for st1, v in comprehension_thunk(ex, st, args[0], "list"):
+            if isinstance(v, Exc):
+                yield st1, v
+            else:
+                yield from _sum(ex, st1, [v] + list(args[1:]), kwargs)
+        return
     items = bm.iter_values(ex, st, args[0])
     if items is None:
         raise U("sum of symbolic iterable")
@@ -810,8 +835,8 @@ FUNCS = {
     "operator.le": _operator(ast.LtE), "operator.gt": _operator(ast.Gt), "operator.ge": _operator(ast.GtE),
     "len": _len, "int": _int, "str": _str, "bool": _bool, "divmod": _divmod, "any": _any, "all": _all,
     "callable": _callable, "type": _type, "min": _minmax("min"), "max": _minmax("max"), "abs": _abs,
-    "ord": _ord, "list": _list, "tuple": _tuple, "dict": _dict, "set": _set, "enumerate": _enumerate,
-    "zip": _zip, "map": _map, "filter": _filter, "getattr": _getattr, "hasattr": _hasattr, "range": _range,
+    "ord": _ord, "chr": _chr, "list": _list, "tuple": _tuple, "dict": _dict, "set": _set, "enumerate": _enumerate,
+    "zip": _zip, "frozenset": _set, "map": _map, "filter": _filter, "getattr": _getattr, "hasattr": _hasattr, "range": _range,
     "sys.intern": _intern, "typing.cast": _cast, "issubclass": _issubclass, "repr": _repr, "sum": _sum,
     "float": _float, "sorted": _sorted, "print": _noop, "re.compile": _re_compile,
     "warnings.warn": _traced("warnings.warn"),
@@ -986,10 +1011,17 @@ def _m_join(ex, st, s, args, kwargs):
                 yield from _m_join(ex, st1, s, [v], {})
         return
     items = bm.iter_values(ex, st, it)
+    if items is None and isinstance(it, SSeq) and it.sort == "str":
+        f = ex.uf("py_join_seq", z3.StringSort(), z3.IntSort(), it.arr.sort(), z3.StringSort())
+        yield st, SV("str", f(sstr(s), it.n, it.arr))
+        return
     if items is None:
         raise U("join over symbolic iterable")
     if any(natural_sort(i) != "str" for i in items):
         yield ex.raise_(st, "TypeError")
+        return
+    if len(items) == 1:
+        yield st, items[0]
         return
     parts = []
     for i, x in enumerate(items):
@@ -1025,6 +1057,17 @@ def _m_upper(ex, st, s, args, kwargs):
 def _m_lower(ex, st, s, args, kwargs):
     if not is_sym(s):
         yield st, s.lower()
+        return
+    if s.char:
+        # exact on ASCII (still one character); other characters: an uninterpreted case mapping whose
+        # image may be any string (it can land in ASCII, it can be longer than one character)
+        code = z3.StrToCode(s.t)
+        fn = ex.uf("py_lower_nonascii", z3.IntSort(), z3.StringSort())
+        for st1, ascii_ in ex.branch(st, _wrap_bool(code < 128)):
+            if ascii_:
+                yield st1, SV("str", z3.If(z3.And(code >= 65, code <= 90), z3.StrFromCode(code + 32), s.t), char=True)
+            else:
+                yield st1, SV("str", fn(code))
         return
     fn = ex.uf("py_lower", z3.StringSort(), z3.StringSort())
     yield st, SV("str", fn(s.t))
